@@ -90,30 +90,39 @@ Theorem C03_btc_recorded_untouched : forall d s k,
 Proof. exact btc_select_untouched. Qed.
 Print Assumptions C03_btc_recorded_untouched.
 
-(* ---- histories: every list of ops (deliveries with faults = re-scans / retries, session ends,
-   restarts), every destination kind, every initial state satisfying the invariant ---- *)
+(* ---- histories: every list of ops (deliveries with faults = re-scans / retries, session ends of
+   whichever live session - sessions may overlap after a release -, restarts, releases of pending
+   transfers by retry requests), every destination kind, every initial state ---- *)
+
+(* a failed submission marks failed exactly those of its transfers that are not recorded executed -
+   decided per transfer, wherever in the session it stands *)
+Theorem C03_failed_end_per_transfer : forall b s k,
+  lookup (fail_all s b) k = if kmem k b && negb (is_done (lookup s k)) then Failed else lookup s k.
+Proof. exact lookup_fail_all. Qed.
+Print Assumptions C03_failed_end_per_transfer.
+
+(* a retry request releases pending transfers to failed and touches nothing else *)
+Theorem C03_release_only_pending : forall b s k,
+  lookup (release_all s b) k = if kmem k b && is_pending (lookup s k) then Failed else lookup s k.
+Proof. exact lookup_release_all. Qed.
+Print Assumptions C03_release_only_pending.
 
 (* executed is final *)
 Theorem C03_executed_is_final : forall ds s o k,
-  inv ds s -> is_done (lookup (st s) k) = true -> is_done (lookup (st (fst (step ds s o))) k) = true.
+  is_done (lookup (st s) k) = true -> is_done (lookup (st (fst (step ds s o))) k) = true.
 Proof. exact step_done_mono. Qed.
 Print Assumptions C03_executed_is_final.
-
-Theorem C03_invariant_preserved : forall ds s o, inv ds s -> inv ds (fst (step ds s o)).
-Proof. exact step_inv. Qed.
-Print Assumptions C03_invariant_preserved.
 
 (* at every step nothing that the destination reports executed (Bitcoin: that is recorded pending or
    executed) is handed to signing *)
 Theorem C03_sound_at_every_step : forall ds ops s j sj oj k,
-  inv ds s -> nth_error (trace ds s ops) j = Some (sj, oj) ->
+  nth_error (trace ds s ops) j = Some (sj, oj) ->
   eligible ds (lookup (st sj) k) = false -> ~ In k (signed_of oj).
 Proof. exact sound_at_every_step. Qed.
 Print Assumptions C03_sound_at_every_step.
 
 (* a transfer executed before op i is in no signing set of op i or of any later op *)
 Theorem C03_never_resigned : forall ds ops s i j si oi sj oj k,
-  inv ds s ->
   nth_error (trace ds s ops) i = Some (si, oi) -> nth_error (trace ds s ops) j = Some (sj, oj) ->
   (i <= j)%nat -> is_done (lookup (st si) k) = true -> ~ In k (signed_of oj).
 Proof. exact never_resigned. Qed.
@@ -122,7 +131,7 @@ Print Assumptions C03_never_resigned.
 (* ---- the judge applied to the implementation (Run/C03.v) ---- *)
 
 Theorem C03_judge_accepts_model : forall ds uni ops s,
-  inv ds s -> wf_ops uni ops = true ->
+  wf_ops uni ops = true ->
   hist_ok ds uni (combine uni (snapshot uni (st s))) ops (model_obs ds uni s ops) = true.
 Proof. exact hist_ok_model. Qed.
 Print Assumptions C03_judge_accepts_model.
@@ -143,10 +152,11 @@ Theorem C03_judge_never_resigned : forall ds uni ops view os k,
 Proof. exact hist_ok_never_resigned. Qed.
 Print Assumptions C03_judge_never_resigned.
 
-(* Non-vacuity: the invariant is satisfiable, and a Bitcoin history with a retry after a failed
-   submission, a restart and a repeated delivery. *)
+(* Non-vacuity: a Bitcoin history with a retry after a failed submission, a restart and a repeated
+   delivery; and two overlapping sessions: [(1,0); (1,1); (1,2)] is in flight, a retry releases (1,1)
+   and (1,2), a second session over [(1,2); (1,1)] succeeds, then the first one fails - only (1,0) is
+   marked failed and signed again. *)
 Example C03_nonvacuous :
-  inv BTC (mkstate [] []) /\
   map (fun x => signed_of (snd x))
       (trace BTC (mkstate [((1, 0), Done)] [])
          [Deliver [((1, 0), NoFault); ((1, 1), NoFault); ((1, 2), NoFault)];
@@ -154,6 +164,17 @@ Example C03_nonvacuous :
           Deliver [((1, 0), NoFault); ((1, 1), NoFault); ((1, 2), NoFault)];
           Deliver [((1, 1), NoFault)]])
   = [[(1, 1); (1, 2)]; []; []; []; [(1, 1)]; []] /\
+  (let ops := [Deliver [((1, 0), NoFault); ((1, 1), NoFault); ((1, 2), NoFault)];
+               Release [(1, 1); (1, 2)];
+               Deliver [((1, 2), NoFault); ((1, 1), NoFault)];
+               ExecOk [(1, 2); (1, 1)];
+               ExecFail [(1, 0); (1, 1); (1, 2)];
+               Deliver [((1, 0), NoFault); ((1, 1), NoFault); ((1, 2), NoFault)]] in
+   map (fun x => signed_of (snd x)) (trace BTC (mkstate [] []) ops)
+   = [[(1, 0); (1, 1); (1, 2)]; []; [(1, 2); (1, 1)]; []; []; [(1, 0)]] /\
+   map (fun o => o_snap o) (model_obs BTC [(1, 0); (1, 1); (1, 2)] (mkstate [] []) ops)
+   = [[Pending; Pending; Pending]; [Pending; Failed; Failed]; [Pending; Pending; Pending];
+      [Pending; Done; Done]; [Failed; Done; Done]; [Pending; Done; Done]]) /\
   evm_select [((1, 0), Executed); ((1, 1), NotExecuted)] = Ok [(1, 1)] /\
   old_sub_select [((1, 0), Executed); ((1, 1), NotExecuted)] = Ok [(1, 0); (1, 1)].
-Proof. split; [intros k H; discriminate | vm_compute; repeat split]. Qed.
+Proof. vm_compute. repeat split. Qed.
